@@ -9,6 +9,7 @@ class Facts:
     def __init__(self, fdir):
         self.fdir = fdir
         self._raw = {}      # crate -> {fn: raw json line}
+        self._idx = {}      # crate -> {fn: (offset, length)}
         self._parsed = {}   # (crate, fn) -> dict
         self._calls = {}    # crate -> list of tuples
         self._items = {}    # crate -> list of dict
@@ -24,32 +25,61 @@ class Facts:
     def _stem(self, crate):
         return crate if "." in crate else crate + ".lib"
 
+    def _index(self, crate):
+        """name -> (offset, length) of each body record in <crate>.hir.jsonl (built on first use, cached on disk)."""
+        crate = self._stem(crate)
+        if crate in self._idx:
+            return self._idx[crate]
+        p = os.path.join(self.fdir, crate + ".hir.jsonl")
+        ip = p + ".idx"
+        d = {}
+        if os.path.exists(ip):
+            try:
+                d = {k: tuple(v) for k, v in json.load(open(ip)).items()}
+            except Exception:
+                d = {}
+        if not d and os.path.exists(p):
+            off = 0
+            with open(p, "rb") as f:
+                for line in f:
+                    m = re.match(rb'\{"fn":"((?:[^"\\]|\\.)*)"', line)
+                    if m:
+                        name = json.loads(b'"' + m.group(1) + b'"')
+                        if name in d:
+                            i = 2
+                            while f"{name}#{i}" in d:
+                                i += 1
+                            name = f"{name}#{i}"
+                        d[name] = (off, len(line))
+                    off += len(line)
+            try:
+                tmp = ip + f".{os.getpid()}.tmp"
+                with open(tmp, "w") as f:
+                    json.dump(d, f)
+                os.replace(tmp, ip)
+            except OSError:
+                pass
+        self._idx[crate] = d
+        return d
+
     def _load_raw(self, crate):
+        """name -> raw JSON line for every body of the crate (whole file; used by global scans)."""
         crate = self._stem(crate)
         if crate in self._raw:
             return self._raw[crate]
         d = {}
         p = os.path.join(self.fdir, crate + ".hir.jsonl")
         if os.path.exists(p):
-            with open(p) as f:
-                for line in f:
-                    # {"fn":"...","kind":
-                    m = re.match(r'\{"fn":"((?:[^"\\]|\\.)*)"', line)
-                    if not m:
-                        continue
-                    name = json.loads('"' + m.group(1) + '"')
-                    # duplicate names (e.g. two impls with the same printed path): keep all
-                    if name in d:
-                        i = 2
-                        while f"{name}#{i}" in d:
-                            i += 1
-                        name = f"{name}#{i}"
-                    d[name] = line
+            idx = self._index(crate)
+            with open(p, "rb") as f:
+                data = f.read()
+            for name, (off, ln) in idx.items():
+                d[name] = data[off:off + ln].decode("utf-8")
         self._raw[crate] = d
         return d
 
     def fn_names(self, crate):
-        return list(self._load_raw(crate).keys())
+        return list(self._index(crate).keys())
 
     def fn(self, crate, name):
         """Exact def-path lookup; returns None when absent."""
@@ -57,7 +87,15 @@ class Facts:
         key = (crate, name)
         if key in self._parsed:
             return self._parsed[key]
-        raw = self._load_raw(crate).get(name)
+        if crate in self._raw:
+            raw = self._raw[crate].get(name)
+        else:
+            ent = self._index(crate).get(name)
+            raw = None
+            if ent is not None:
+                with open(os.path.join(self.fdir, crate + ".hir.jsonl"), "rb") as f:
+                    f.seek(ent[0])
+                    raw = f.read(ent[1]).decode("utf-8")
         if raw is None:
             return None
         d = json.loads(raw)
@@ -67,7 +105,7 @@ class Facts:
     def find_fns(self, crate, pattern):
         """All fns whose def-path matches the regex `pattern` (search)."""
         rx = re.compile(pattern)
-        return [n for n in self._load_raw(crate) if rx.search(n)]
+        return [n for n in self._index(crate) if rx.search(n)]
 
     def fns_mentioning(self, crate, *needles):
         """Names of bodies whose raw JSON contains every needle (cheap global pre-filter)."""
@@ -78,7 +116,7 @@ class Facts:
         return out
 
     def all_fns(self, crate):
-        for n in self._load_raw(crate):
+        for n in self._index(crate):
             yield self.fn(crate, n)
 
     # ---- calls --------------------------------------------------------------
